@@ -421,6 +421,53 @@ prop(
 )
 
 
+# Workloads added while strengthening against the fifth wave of seeded changes (DESIGN 9.5); appended to the rule text.
+RULE_EXTRA = {
+    "C01": "; CloneTo also from a source that was decoded and then had its body rewritten in place; section 'typefield': every value of the "
+           "first two bytes with an intact or a damaged cookie through every entry point; near-maximum (65536..65552-byte) and 1000+-attribute inputs",
+    "C02": "; (b') every type value also with a damaged cookie; nested ForEach inside the callback; (d) near-maximum bodies (65512..65532) and "
+           "messages with 900..3900 attributes; release and debug builds",
+    "C03": "; further operations: Add(0x0000, empty), retag an attribute in the struct then Encode, Type assigned directly then SetType(same), "
+           "65..145 small attributes of repeated types, fill to the top of the 16-bit length; release and debug builds",
+    "C04": "; every judged message is also checked from inside a ForEach callback positioned at or before the MAC; MACs produced by other "
+           "procedures (RFC 3489 zero-padded text, length not rewritten, text incl. attribute header, unkeyed SHA-1) must be refused; 1000+ attributes "
+           "in front of the MAC; long-term credentials made of Unicode look-alikes, spaces, NUL, colons",
+    "C05": "; one check in five is preceded by a ForEach whose callback fails or panics; (c) also with 1000+ attributes in front; near-miss "
+           "values of other procedures (draft header length, zero header length, CRC incl. attribute header, CRC of the body)",
+    "C06": "; text attributes get a second pass over every length with dialect-significant content (RFC 8489 nonce cookie, BOM, NUL, CRLF, "
+           "cookie bytes) in a caller-supplied Raw whose capacity ends inside or right behind the attribute; UNKNOWN-ATTRIBUTES lists of 255..32760 entries; release and debug builds",
+    "C07": "; second twin may carry bytes behind the declared length; FINGERPRINT-typed attributes behind MESSAGE-INTEGRITY; section "
+           "'absent-target': the getter's attribute is absent among 0..4 named neighbour types with parseable values, outcome must be not-found",
+    "C08": "; builds also through typed setters (ERROR-CODE, ErrorCode, XOR-/MAPPED-ADDRESS, UNKNOWN-ATTRIBUTES, REALM, NONCE); follow-up uses "
+           "'edit fields, Decode the very bytes Raw holds' and 'retag an attribute in the struct, Encode'; release and debug builds",
+    "C09": "; text lengths 65535, 65536, 65536+k, 2*65536+7, 3*65536+limit, 1 MiB, 16 MiB; TransactionID.AddTo / NewTransactionID with an "
+           "entropy source that delivers k=0..12 bytes and then fails (raw bytes, length and attribute list unchanged on error)",
+    "C10": "; responses are of any class and method and may carry attributes that do not verify or parse; targeted 'mass timeout': 99..1000 "
+           "transactions whose (last) deadline passes on one tick, with and without retransmission; scripted write failures rotate through plain / net.Error with Timeout() / *net.OpError / non-timeout net.Error",
+    "C11": "; every walk also ticks without clock movement and half way to each deadline; interference 'write-error' (the k-th retransmission "
+           "fails, error shape rotating) at every position; section 'schedule-walks-epochs': the walks with virtual time zero at 8 instants (astride "
+           "2262-04-11T23:47:16.854775807Z and 1677-09-21, year 1, 1969/1970, 2500) and with requests whose raw header id differs from the TransactionID field",
+    "C12": "; responses of any class/method, with FINGERPRINT that does not verify / wrong size / not last, random MESSAGE-INTEGRITY, unknown "
+           "comprehension-required attribute, truncated ERROR-CODE; one response in five is followed in the same datagram by a complete message with the id of another transaction in flight (or its own, or zeros)",
+    "C13": "; StopWithError(id, nil); section 'reentrant-collect': the handler calls Collect(later time) from inside Collect/Stop/Process; "
+           "mass expiry up to 9000 transactions in one call with deadline == collect time survivors; the model's last time point lies in the year 2400; release and debug builds",
+    "C14": "; section 'call-during-mass-collect': 1..1100 transactions expire in one Collect and a second goroutine calls Close / Start / Stop / "
+           "Collect while it delivers (handler waits for that call), outcome compared with the only sequential order consistent with the observation; race, release and debug builds",
+    "C15": "; connection close errors also as net.Error with Timeout() and *net.OpError around it; CloseRead/CloseWrite on the scripted "
+           "connection are counted and must stay 0 under WithNoConnClose; targeted 'Close from the closed-event handler' (nested Close/Start/Indicate return ErrClientClosed) over 16 option combinations",
+    "C16": "; section 'runs-with-affixes': runs of 18 byte classes (UTF-8 continuation and lead bytes, NUL, 0xFF, URI delimiters) x 17 lengths "
+           "(63..70000) x 6 prefixes x 14 suffixes x 4 schemes; release, race and debug builds",
+    "C17": "; hosts include IPv4-mapped and other embedded-IPv4 IPv6 literals and '::'; after each accepted grammar case the returned struct is "
+           "edited and the same string parsed again (must give the original components); secure dials with server names of 63..1000 bytes (SNI must carry the host); release and debug builds",
+    "C18": "; one key in three is a sibling of the previous key: same length and same CRC-32 (last four bytes solved for), same first/last byte, "
+           "or one bit apart; one reset in eight is 14..43 resets in a row inside one acquisition; release, race and debug builds",
+    "C19": "; every wire value is also read into 5 receivers holding out-of-range Method/Class fields that agree with the value in their low bits",
+    "C20": "; targeted sections: one destination across IPv6 / IPv4-mapped (::ffff:a.b.c.d on the wire) / '::' / '::a.b.c.d' values; text "
+           "destinations across lengths 7, 300, 0, 120, 300; Check(key A), Check(key B), Build(... key C), Check(key A) in turn",
+}
+for _pid, _x in RULE_EXTRA.items():
+    PROPS[_pid]["rule"] = PROPS[_pid]["rule"] + _x
+
 LEVELS = {'C01': ('exploration', "runtime monitoring of the real decoder on generated/mutated/hostile inputs: recover + child-process supervision, pointer-range monitor on Attributes[i].Value, MemStats delta, red-zone and poisoned placements, release/debug/race(checkptr) builds; says 'held on K inputs', catches dropped or weakened length guards, aliasing entry points and length-field-proportional allocation", 'differential + memory-view monitor over generated inputs'), 'C02': ('exploration', 'differential monitor against an independent RFC 5389 parser; the space of length structures up to a body bound is enumerated completely, the rest is seeded random/mutated; Get/Contains/ForEach checked against list semantics on every accepted input', 'differential testing vs reference parser, bounded-exhaustive'), 'C03': ('exploration', 'after-every-operation invariant monitor over random building sequences with a shadow (type,value) list: reference parse of Raw == shadow == struct == library decode, Equal, zero padding, canonical bytes after Encode', 'invariant monitor over operation sequences'), 'C04': ('exploration', 'differential monitor: library Check verdict vs crypto/hmac over the span chosen by the reference parser, on hand-encoded variants, library-signed messages, wrong keys and every single-bit flip; release and debug builds', 'differential oracle + exhaustive bit-flip sweep per message'), 'C05': ('exploration', 'differential monitor against a bitwise CRC-32; every bit position of each fingerprinted message and random bursts; arbitrary FINGERPRINT placements judged by the iff', 'differential oracle + exhaustive bit-flip sweep per message'), 'C06': ('exploration', 'two-way differential against independent RFC encoders/decoders; ports, text lengths and error codes swept completely, the rest random', 'differential testing vs reference codecs'), 'C07': ('exploration', 'metamorphic twin monitor (same value, different surroundings/position/capacity) + before/after snapshot + red-zone placement over the complete getter x length x position x capacity grid', 'metamorphic twins + snapshot monitor'), 'C08': ('exploration', 'fresh-twin differential over chains of uses with poisoned spare capacity and scribbled caller buffers', 'fresh-twin differential with poisoning'), 'C09': ('exploration', 'boundary sweep of every setter against a hard-coded limit table with before/after snapshots and call counters for Build', 'boundary sweep + snapshot monitor'), 'C10': ('exploration', 'online comparison with an executable client model on all short histories, targeted pairwise control-point interleavings through the public seams, and an exactly-once ledger over perturbed concurrent runs (also under the race detector)', 'model-based history checking + exactly-once ledger over event logs'), 'C11': ('exploration', 'write-log oracle with virtual timestamps along complete retransmission schedules, plus the model and ledger workloads of C10 with the write oracle', 'trace checking of the write log under virtual time'), 'C12': ('exploration', 'unique-payload ledger: every datagram is tagged, every handler copies what it sees; routing decided at delivery time is compared with what handlers and the fallback handler observed; pool churn; race detector', 'unique-value ledger over handler and fallback logs'), 'C13': ('exploration', 'the real Agent is run next to an executable transaction-table model on EVERY call sequence up to the depth bound (all abstract table states visited) and on long random sequences with re-entrant handlers', 'exhaustive bounded model conformance'), 'C14': ('exploration', 'recorded concurrent histories checked for linearizability with porcupine against the C13 model, Go race detector, stuck-goroutine watchdog', 'linearizability checking of recorded histories (porcupine) + race detector'), 'C15': ('exploration', 'ledger over simulated-world counters and logical stamps, process-wide goroutine dump scan after Close, race detector; option product and Close placed everywhere', 'ledger + goroutine-dump scan + race detector'), 'C16': ('exploration', 'the supervising process is the oracle: children with a 1 MiB stack limit and heap watchdog, crash journal naming the input, confirmation re-run; exhaustive short strings + random long ones', 'process-level supervision with crash journal'), 'C17': ('exploration', 'expected components known by construction over the complete grammar product; round trip; DialURI observed through an injected recording network (network, address, first bytes: ClientHello vs plaintext, server name)', 'components-by-construction differential + recording fake network'), 'C18': ('exploration', 'every digest of random acquire/write/sum/reset/put programs compared with crypto/hmac, single- and multi-goroutine, race detector', 'differential vs crypto/hmac under pool reuse'), 'C19': ('exploration', "complete domain (16384 + 65536 points) against a bit-by-bit table from RFC 5389 figure 3: for this property 'held on what was observed' is the whole statement", 'exhaustive enumeration of the complete domain'), 'C20': ('exploration', 'testing.AllocsPerRun per operation and generated message in a dedicated single-P process with GC off, two warm-up regimes, repeat-to-confirm', 'allocation monitor (AllocsPerRun) in a dedicated process')}
 
 for _pid, (_cat, _text, _tech) in LEVELS.items():
